@@ -21,6 +21,12 @@ def run_shard(ctx):
     q = ctx.quick()
     ctx.run_given(arb.arbitrary_input(L), lambda x: judge_c06(ctx, L, x[0], x[1], x[2], x[3], x[4]), ctx.share(24000 if q else 400000), name="arbitrary")
     ctx.run_given(arb.faulted_input(L), lambda x: judge_c06(ctx, L, x[0], x[1], x[2], x[3], "faulted"), ctx.share(8000 if q else 150000), name="faulted")
+    # very long buffers / lists (around 4096, 8192 and the UINT16 limit), well-formed and cut / extended by one byte
+    from .. import gen
+
+    for case in ctx.mine(gen.huge_cases(L)):
+        for data, how in ((case.data, "huge"), (case.data[:-1], "huge-cut"), (case.data + b"\x00", "huge-suffix")):
+            ctx.run_plain(lambda data=data, how=how, case=case: judge_c06(ctx, L, case.type, None, False, data, how), f"huge:{case.type}")
     # every type at least once on low-entropy bytes
     from hypothesis import strategies as st
 
